@@ -31,7 +31,10 @@ def main():
                 return
             row = {}
             env = dict(os.environ, VERIF_REPO=w.repo)
-            for pid in ALL:
+            cols = ALL
+            if os.environ.get("CROSS_OWN"):  # only the check of the property the change was written against
+                cols = [name.split("/")[1]]
+            for pid in cols:
                 rc, out = sh([os.path.join(w.verif, "check"), pid], cwd=w.verif, env=env, timeout=2400)
                 row[pid] = "ok" if rc == 0 else ("broken-only" if "no-failing-input-found" in out else "failing-input")
             results[name] = row
